@@ -74,7 +74,25 @@ def targets_of(model, header):
         t.append((m.group(1), 'constant', None))
     for m in re.finditer(r'^\w[\w \*]*?(foo_free\w+) \(', header, re.M):
         t.append((m.group(1), 'function', None))
+    # functions whose role is selected by the (constructor)/(method) annotation only (see role_decls)
+    for m in re.finditer(r'^(Foo\w+) \*(foo_\w+_(?:dup|create)) \(', header, re.M):
+        t.append((m.group(2), 'function', ('role', 'constructor', m.group(1))))
+    for m in re.finditer(r'^void (foo_role_m_\d+) \((Foo\w+) \*self', header, re.M):
+        t.append((m.group(1), 'function', ('role', 'method', m.group(2))))
     return t
+
+
+def role_decls(model):
+    """declarations whose names do not make them constructors/methods by themselves: a constructor that takes the instance type as
+    its first parameter or is not called _new, a method that does not carry its type's prefix"""
+    L = []
+    for i, c in enumerate(model['classes'][:2]):
+        nm = c['name']
+        us = 'foo_' + objgen.uscore(nm[3:])
+        L.append('%s *%s_dup (%s *src);' % (nm, us, nm))
+        L.append('%s *%s_create (gint a);' % (nm, us))
+        L.append('void foo_role_m_%d (%s *self, gint a);' % (i, nm))
+    return '\n'.join(L) + ('\n' if L else '')
 
 
 def gen_blocks(rng, targets, model):
@@ -129,6 +147,10 @@ def gen_blocks(rng, targets, model):
                 b['glib:finish-func'] = 'fetch_finish'
                 b['glib:sync-func'] = 'fetch_blocking'
                 anns.append('(finish-func fetch_finish) (sync-func fetch_blocking)')
+        elif kind == 'function' and isinstance(extra, tuple) and extra[0] == 'role':
+            if rng.random() < 0.8:
+                b['role'] = (extra[1], extra[2])
+                anns.append('(%s)' % extra[1])
         elif kind == 'function' and isinstance(extra, tuple):
             pass
         elif kind == 'function':
@@ -291,6 +313,13 @@ def judge(model, blocks, gir):
                 b['ident'], bid, sorted(missing), n.tag, sorted(got))))
         if b['stability'] and not (n.tag == 'virtual-method' and n.get('invoker')) and n.get('stability') != b['stability']:
             out.append(('lost:%s:stability' % b['kind'], 'block "%s": stability=%r, written %r' % (b['ident'], n.get('stability'), b['stability'])))
+        if b.get('role'):
+            role, owner_name = b['role']
+            hits['specific:role:' + role] += 1
+            owner = n.parent
+            if n.tag != role or owner is None or owner.get('glib:type-name') != owner_name:
+                out.append(('annotation:role:' + role, 'block "%s" says (%s) and the signature permits it (type %s), but the element is <%s> of %s' % (
+                    b['ident'], role, owner_name, n.tag, owner.get('glib:type-name') if owner is not None and owner.tag != 'namespace' else 'the namespace')))
         if b['skip'] and n.get('introspectable') != '0':
             out.append(('skip-ignored:' + b['kind'], 'block "%s" says (skip) but the element is introspectable' % b['ident']))
         for attr in ('value', 'default-value', 'setter', 'getter', 'emitter', 'copy-function', 'free-function', 'glib:ref-func', 'glib:unref-func',
@@ -324,6 +353,7 @@ def run_case(case):
     model = objgen.gen_objlib(rng)
     header, dump = objgen.render_objlib(model, rng)
     header += '#define FOO_LIMIT 10\n#define FOO_NAME "name"\nvoid foo_free_standing (gint x);\nFooRec *foo_free_make (void);\n'
+    header += role_decls(model)
     targets = targets_of(model, header)
     ident_prefixes = ['Foo']
     if model['classes'] and rng.random() < 0.3:
